@@ -23,7 +23,7 @@ RULE = ('sorted fragment sequences (NLA / CHIC / plain Fragment; 1-4 cells; shor
         'molecule of >=2 fragments; distinct = distinct (input seed, cache, pooling, schedule).')
 ASSUMPTIONS = ['precondition of the property: coordinate sorted input and every fragment span + read length shorter than cache_size/2',
                'schedules are the deterministic ejection interval of a single-threaded generator']
-MIN_NONTRIVIAL = {'quick': 1500, 'thorough': 20000}
+MIN_NONTRIVIAL = {'quick': 1500, 'thorough': 60000}
 REQUIRED_MONITORS = ['event:arrive', 'event:emit', 'emit:before_end_of_input', 'schedule:runs', 'path:alignmentfile', 'oracle:truth_compared',
                      'eject:rounds_with_ejection', 'eject:rounds_nonprefix', 'eject:rounds_noncontiguous', 'history:restarted_passes']
 EXHAUSTIVE = {'quick': True, 'thorough': True}
@@ -31,7 +31,7 @@ SHARD_TIMEOUT = {'quick': 900, 'thorough': 7200}
 
 
 def gen_cases(tier, seed):
-    n = 64 if tier == 'quick' else 700
+    n = 64 if tier == 'quick' else 2400
     return [{'i': i, 'seed': seed} for i in range(n)]
 
 
